@@ -1,3 +1,4 @@
 import UmapProofs.Basic
 import UmapProofs.GraphLemmas
 import UmapProofs.GradLemmas
+import UmapProofs.AssembleLemmas
